@@ -3,6 +3,9 @@
      reset src|live            new object, all-closed
      open <0|1>   setnr <0|1>   send <id> <header> <size> <expected|-> <timeoutMs>   recv <header> <data|->
      expire <i>   run <i>   adv <dt>   close1   close2   lerr   closeend   lerrend   openend
+     sendx <as send>   runx <i>     the same steps with the driver's send_packet or a packet_sent subscriber raising: reply `exc tx=…`
+                                    (the exception reached the caller) or `ok …` (nothing was sent, nothing raised); `err blocked`: the step
+                                    waits for ever for the send lock
      sendf <as send>   runf <i>     the same, the driver reporting a link error from inside link.send_packet: reply
                                     `<reply of the critical section> | <reply of the deferred link error>` (the second only if transmitted)
    Reply: `ok tx=<sid>:<pkid>:<onClosed>,… new=<idx>:<interval>,… st=<one letter per timer: A C E D> link=<sid|->`
@@ -13,13 +16,14 @@ open CfVerif CfVerif.C10
 
 structure DState where
   cfg : Cfg
-  s : State
+  ls : LState
 
 def stLetter : TSt → String
   | .armed => "A" | .cancelled => "C" | .expired => "E" | .done => "D"
 
 def showErr : Err → String
   | .tooLarge => "too_large" | .notEnabled => "not_enabled" | .keyError => "key_error" | .attributeError => "attribute_error"
+  | .blocked => "blocked"
 
 def dash (l : List String) : String := if l.isEmpty then "-" else ",".intercalate l
 
@@ -49,30 +53,44 @@ def parseEv? : List String → Option Ev
   | ["openend"] => some .openEnd
   | _ => none
 
+def excDelta (old new : State) : String := "exc" ++ ((showDelta old new).drop 2).toString
+
+def lreply (d : DState) (le : LEv) : DState × String :=
+  match lstep d.cfg d.ls le with
+  | .ok ls' =>
+    ({ d with ls := ls' }, if ls'.raised > d.ls.raised then excDelta d.ls.st ls'.st else showDelta d.ls.st ls'.st)
+  | .error er => (d, "err " ++ showErr er)
+
 def failing (d : DState) (ws : List String) : DState × String :=
   match parseEv? ws with
   | none => (d, "bad-op")
   | some e =>
-    match step d.cfg d.s e with
+    match step d.cfg d.ls.st e with
     | .error er => (d, "err " ++ showErr er)
     | .ok s1 =>
-      if s1.log.length > d.s.log.length then
+      if d.ls.locked && takesLock d.cfg d.ls.st e then (d, "err blocked")
+      else if s1.log.length > d.ls.st.log.length then
         let s2 := stepT d.cfg (stepT d.cfg s1 .linkError) .linkErrorEnd
-        ({ d with s := stepReportingError d.cfg d.s e }, showDelta d.s s1 ++ " | " ++ showDelta s1 s2)
-      else ({ d with s := s1 }, showDelta d.s s1)
+        ({ d with ls := { d.ls with st := stepReportingError d.cfg d.ls.st e } }, showDelta d.ls.st s1 ++ " | " ++ showDelta s1 s2)
+      else ({ d with ls := { d.ls with st := s1 } }, showDelta d.ls.st s1)
 
 def dstep (d : DState) (ws : List String) : DState × String :=
   match ws with
-  | ["reset", "src"] => ({ cfg := srcCfg, s := init }, "ok")
-  | ["reset", "live"] => ({ cfg := liveCfg, s := init }, "ok")
+  | ["reset", "src"] => ({ cfg := srcCfg, ls := linit }, "ok")
+  | ["reset", "live"] => ({ cfg := liveCfg, ls := linit }, "ok")
   | "sendf" :: rest => failing d ("send" :: rest)
   | "runf" :: rest => failing d ("run" :: rest)
+  | "sendx" :: rest =>
+    match parseEv? ("send" :: rest) with
+    | some (.send pk ex t) => lreply d (.sendRaise pk ex t)
+    | _ => (d, "bad-op")
+  | ["runx", i] =>
+    match i.toNat? with
+    | some i => lreply d (.runRaise i)
+    | none => (d, "bad-op")
   | _ =>
     match parseEv? ws with
     | none => (d, "bad-op")
-    | some e =>
-      match step d.cfg d.s e with
-      | .ok s' => ({ d with s := s' }, showDelta d.s s')
-      | .error er => (d, "err " ++ showErr er)
+    | some e => lreply d (.ev e)
 
-def main : IO Unit := runProto ({ cfg := srcCfg, s := init } : DState) dstep
+def main : IO Unit := runProto ({ cfg := srcCfg, ls := linit } : DState) dstep
